@@ -33,7 +33,7 @@ COMPONENTS = {
 ASSUMPTIONS = ["start_line scrolling of the rendered buffer is not part of the property (pixel clause checked with "
                "start line 0); counters and trace metadata are not compared",
                "busy flag: set by any write to the chip, cleared by a status read (documented in hd61202.py)"]
-PROBES = ["cs_none", "cs_both_read", "column_wrap", "data_read", "status_read", "instr_on_off", "start_line_set",
+PROBES = ["controller_reset", "frame_fetch", "cs_none", "cs_both_read", "column_wrap", "data_read", "status_read", "instr_on_off", "start_line_set",
           "window_2000", "window_A000", "high_offset", "flip_hidden_bit", "window_mirror_address"]
 TOTAL_BITS = 2 * 8 * 64 * 8
 
@@ -41,9 +41,9 @@ TOTAL_BITS = 2 * 8 * 64 * 8
 def batches(tier: str) -> List[Batch]:
     if tier == "quick":
         return [Batch("hist", "py+rs-lcd", 8000, 100), Batch("pix", "py+rs-lcd", 400, 10),
-                Batch("flip", "py+rs-lcd", 64, 2), Batch("py-bus", "py-lcd", 160, 8)]
+                Batch("flip", "py+rs-lcd", 64, 2), Batch("py-bus", "py-lcd", 160, 8), Batch("redraw", "py+rs-lcd", 1600, 50)]
     return [Batch("hist", "py+rs-lcd", 600000, 300), Batch("pix", "py+rs-lcd", 20000, 20),
-            Batch("flip", "py+rs-lcd", 256, 2), Batch("py-bus", "py-lcd", 8000, 20)]
+            Batch("flip", "py+rs-lcd", 256, 2), Batch("py-bus", "py-lcd", 8000, 20), Batch("redraw", "py+rs-lcd", 80000, 100)]
 
 
 def _gen_ops(r: Rng, n: int) -> List[list]:
@@ -98,6 +98,24 @@ def generate(batch: str, r: Rng, idx: int, tier: str) -> Dict[str, Any]:
             else:
                 op[1] = 0x2000 | nib
         return {"kind": "bus", "exec": "py-lcd", "ops": ops}
+    if batch == "redraw":
+        # a screen is drawn and shown; the controllers are reset (or not); the same layout is drawn again with other
+        # contents — exactly as many instruction and data writes per chip — and shown again.  Frames are fetched only
+        # at those moments, not after every access
+        rd = r.child("redraw")
+        ops: List[list] = []
+        for _ in range(rd.range(1, 3)):
+            first = [[0, 0x2000 | rd.choice([0x0, 0x4, 0x8]), 0x3F]] if rd.chance(3, 4) else []
+            first += [op for op in _gen_ops(rd, rd.choice([4, 12, 40])) if op[0] == 0 and not (op[1] & 1)]
+            ops += first + [[4, 0, 0]]
+            for _ in range(rd.range(1, 2)):
+                if rd.chance(2, 3):
+                    ops.append([3, 0, 0])
+                again = [[0, op[1], rd.below(256) if (op[1] & 2) else op[2]] for op in first]
+                ops += again + [[4, 0, 0]]
+                if rd.chance(1, 3):
+                    ops += [[1, 0x2000 | rd.choice([0x4, 0x8]) | rd.choice([1, 3])] for _ in range(rd.range(1, 3))] + [[4, 0, 0]]
+        return {"kind": "hist", "exec": "py+rs-lcd", "ops": ops, "pixels": False}
     n = r.choice([20, 60, 150, 400]) if batch == "hist" else r.choice([20, 60])
     return {"kind": "hist", "exec": "py+rs-lcd", "ops": _gen_ops(r, n), "pixels": batch == "pix"}
 
@@ -127,7 +145,11 @@ def _run_py_hist(scn: Dict[str, Any]) -> Dict[str, Any]:
         ret = None
         changed = None
         before = _py_pixels(ctl) if (scn.get("pixels") and op[0] == 0) else None
-        if op[0] == 0:
+        if op[0] == 3:
+            ctl.reset()
+        elif op[0] == 4:
+            ret = ["".join("1" if v else "0" for v in row) for row in _py_pixels(ctl)]
+        elif op[0] == 0:
             ctl.write(op[1], op[2])
         else:
             ret = ctl.read(op[1])
@@ -287,6 +309,38 @@ def _check_hist(scn: Dict[str, Any], hist: Dict[str, Any]) -> List[dict]:
         return ret
 
     for i, op in enumerate(scn["ops"]):
+        if op[0] in (3, 4):
+            probe("controller_reset" if op[0] == 3 else "frame_fetch")
+            for ex, key in (("py-lcd", "py"), ("rs-lcd", "rs")):
+                if done[ex]:
+                    continue
+                ret, regs, _, _ = hist[key]["trace"][i]
+                if op[0] == 3:
+                    models[ex] = [_Chip(), _Chip()]
+                chips = models[ex]
+                model_regs = [c.regs() for c in chips]
+                names = ["on", "start_line", "page", "y_address", "busy", "vram"]
+                bad = [(c, f) for c in range(2) for f in range(6)
+                       if not (regs[c][f] is None and f == 4) and regs[c][f] != model_regs[c][f]]
+                if bad:
+                    c, f = bad[0]
+                    V("state", ex, i, f"after {'reset' if op[0] == 3 else 'a frame fetch'}: chip {c} {names[f]} = {regs[c][f]}, "
+                      f"protocol says {model_regs[c][f]}", field=names[f])
+                    done[ex] = True
+                    continue
+                if op[0] == 4 and ret and not any(c.on and c.start_line != 0 for c in chips):
+                    exp = _expected_pixels(chips)
+                    cols = []
+                    if chips[1].on:
+                        cols += list(range(0, 64)) + list(range(176, 240))
+                    if chips[0].on:
+                        cols += list(range(64, 176))
+                    wrong = [(r, x) for r in range(32) for x in cols if str(ret[r][x]) != str(exp[r][x])]
+                    if wrong:
+                        V("pixel_map", ex, i, f"fetched frame differs from the layout at {len(wrong)} pixels of chips that are on, "
+                          f"first (row {wrong[0][0]}, column {wrong[0][1]})", what="frame")
+                        done[ex] = True
+            continue
         addr = op[1]
         rw, di, cs, sel = _decode(addr)
         probe("window_2000" if (addr & 0xF000) == 0x2000 else "window_A000")
